@@ -134,6 +134,55 @@ class DuplicateId(Scenario):
         return tuple(repr(ev[2]) for ev in w.log if ev[0] == 'tx')
 
 
+class WrapOnWire(Scenario):
+    """A long-lived stream holds the first id; the allocator is then placed just below 2^31-1 (as the suite does) and
+    further requests must wrap on the wire, skipping 0 and the id still in use."""
+
+    def __init__(self, flavour, side):
+        self.name = 'wrap-on-wire'
+        self.params = {'flavour': flavour, 'side': side}
+        self.world_kw = {'alts': ('all',), 'modes': ('Q',)}
+        self.flavour, self.side = flavour, side
+
+    def setup(self, w):
+        beh = {'request_response': lambda h, p: create_future(Payload(b'ok')),
+               'request_stream': lambda h, p: RecPublisher(w, h.ep, 'pub')}
+        conn, client, server = start_pair(w, self.flavour, c_beh=dict(beh), s_beh=dict(beh))
+        sock = client if self.side == 'c' else server
+        MAXID = 0x7FFFFFFF
+
+        def first(w):
+            sock.request_stream(P(b'long')).initial_request_n(1).subscribe(RecSubscriber(w, self.side, 'long'))
+
+        def jump(w):
+            sock._stream_control._current_stream_id = MAXID - 4 if self.side == 'c' else MAXID - 5
+
+        def rr(w, i):
+            w.objs['f%d' % i] = watch_future(w, self.side, 'f%d' % i, sock.request_response(P(b'q%d' % i)))
+
+        w.add_actor(self.side, [Step('long', first), Step('jump', jump)] + [Step('rr%d' % i, lambda w, i=i: rr(w, i)) for i in range(4)])
+
+    def check(self, w):
+        MAXID = 0x7FFFFFFF
+        ep = 'c0' if self.side == 'c' else 's0'
+        ids = [ev[2].sid for ev in w.log if ev[0] == 'tx' and ev[1] == ep and ev[2].type in R.REQUEST_TYPES]
+        exp = [1, MAXID - 2, MAXID, 3, 5] if self.side == 'c' else [2, MAXID - 3, MAXID - 1, 4, 6]
+        out = []
+        if ids != exp:
+            out.append(('C13.wire-wrap', 'C13.wire-wrap | %s' % ('client' if self.side == 'c' else 'server'),
+                        'request frames carry ids %s, expected %s (wrap at 2^31-1 skipping 0 and the live first id)' % (ids, exp)))
+        answered = [w.objs.get('f%d' % i, {}).get('state') for i in range(4)]
+        if answered != ['result'] * 4:
+            out.append(('C13.wire-wrap', 'C13.wire-wrap | answers | %s' % ('client' if self.side == 'c' else 'server'), 'requests around the wrap ended %s' % answered))
+        return out
+
+    def nontrivial(self, w):
+        return True
+
+    def outcome(self, w):
+        return tuple(ev[2].sid for ev in w.log if ev[0] == 'tx' and ev[2].type in R.REQUEST_TYPES)
+
+
 def scenarios(unit):
     fl = unit['flavour']
     out = []
@@ -141,6 +190,8 @@ def scenarios(unit):
               ('stream', 'rr', 'channel', 'fnf', 'rr')]
     for o in orders:
         out.append((IdsOnWire(fl, o), 1))
+    for side in ('c', 's'):
+        out.append((WrapOnWire(fl, side), 1))
     for role in ('server', 'client'):
         for live in ('stream', 'channel'):
             for dup in KINDS:
@@ -154,6 +205,8 @@ def run(unit, part):
 
 
 def scenario_from(name, params):
+    if name == 'wrap-on-wire':
+        return WrapOnWire(params['flavour'], params['side'])
     if name == 'ids-on-wire':
         return IdsOnWire(params['flavour'], tuple(params['order']))
     return DuplicateId(params['flavour'], params['role'], params['live'], params['dup'])
